@@ -102,6 +102,7 @@ pub fn snow_from_rm_with<const PL: usize>(hs: &Hs, name: &str, fixed_ephemeral: 
         has_key: hs.sym.has_k,
         cipher_i: o.cipher_i,
         cipher_r: o.cipher_r,
+        split_done: hs.pos >= hs.pat.nmsgs(),
         s: o.s,
         s_on: hs.has_s,
         e: o.e,
